@@ -1,25 +1,41 @@
 package genql
 
-import verif "github.com/vedadiyan/genql/zz_verif"
+import (
+	"sync"
 
-var callsF, callsG, callsH, doneF, doneG int
+	verif "github.com/vedadiyan/genql/zz_verif"
+)
+
+var (
+	cntMu                                sync.Mutex
+	callsF, callsG, callsH, doneF, doneG int
+)
 
 func cntF(q *Query, cur Map, o *FunctionOptions, args []any) (any, error) {
+	cntMu.Lock()
 	callsF++
+	cntMu.Unlock()
 	v := args[0].(float64) + 1
+	cntMu.Lock()
 	doneF++
+	cntMu.Unlock()
 	return v, nil
 }
 
 func cntG(q *Query, cur Map, o *FunctionOptions, args []any) (any, error) {
+	cntMu.Lock()
 	callsG++
 	doneG++
+	cntMu.Unlock()
 	return args[0], nil
 }
 
 func cntH(q *Query, cur Map, o *FunctionOptions, args []any) (any, error) {
+	cntMu.Lock()
 	callsH++
-	return float64(callsH), nil
+	n := callsH
+	cntMu.Unlock()
+	return float64(n), nil
 }
 
 // H_C14_strategies: ASYNC changes when a call runs, not the result;
@@ -51,6 +67,8 @@ func H_C14_strategies() {
 	if !ok {
 		return
 	}
+	cntMu.Lock()
+	defer cntMu.Unlock()
 	switch form {
 	case 0, 3:
 		verif.Assert(callsF == n && doneF == n, "async-called-once-per-row-and-completed")
